@@ -12,6 +12,11 @@ unsigned char g_keyBytes[3][4]; unsigned g_keyLen[3];      // the keys of this q
 #ifndef VF_RECREATE
 #define VF_RECREATE 1
 #endif
+#ifndef VF_SAMEDEP
+#define VF_SAMEDEP 0
+#endif
+// VF_SAMEDEP: every dependency names the SAME key (a task may request one input twice, with different flags)
+#define DEPK(i) (VF_SAMEDEP ? 0 : (i))
 #ifndef VF_FL
 #define VF_FL 0
 #endif
@@ -69,7 +74,7 @@ extern "C" void harness_db(void) {
   bool oo[2], su[2]; in.dependencies.keys.reserve(3); in.dependencies.flags.reserve(3);
   // (the two flags of each dependency are concrete per query - VF_FL, two bits per dependency: the packed word then stays a constant
   //  for symex all the way through the blob and back, and which key a dependency names is never a symbolic choice)
-  for (int i = 0; i < VF_ND; i++) { oo[i] = (VF_FL >> (2 * i)) & 1; su[i] = (VF_FL >> (2 * i + 1)) & 1; KeyID dk; dk._value = g_keyId[1 + i]; in.dependencies.push_back(dk, oo[i], su[i]); }
+  for (int i = 0; i < VF_ND; i++) { oo[i] = (VF_FL >> (2 * i)) & 1; su[i] = (VF_FL >> (2 * i + 1)) & 1; KeyID dk; dk._value = g_keyId[1 + DEPK(i)]; in.dependencies.push_back(dk, oo[i], su[i]); }
   KeyID k0; k0._value = g_keyId[0];
   HRule& rule = *new HRule(KeyType((const char*)g_keyBytes[0], g_keyLen[0]));
   SQLiteBuildDB* w = newDB(true, client);
@@ -99,12 +104,12 @@ extern "C" void harness_db(void) {
   VF_ASSERT(dbits(out.start) == sb && dbits(out.end) == eb, "timestamps are read back bit for bit");
   VF_ASSERT(out.value.size() == VF_NV, "value length is read back"); for (unsigned i = 0; i < VF_NV; i++) VF_ASSERT(out.value[i] == in.value[i], "value bytes are read back");
   VF_ASSERT(out.dependencies.size() == VF_ND, "the dependency count is read back");
-  for (int i = 0; i < VF_ND; i++) VF_ASSERT(out.dependencies[i].keyID._value == g_keyId[1 + i] && out.dependencies[i].orderOnly == oo[i] && out.dependencies[i].singleUse == su[i], "dependencies are read back in order with both flags");
+  for (int i = 0; i < VF_ND; i++) VF_ASSERT(out.dependencies[i].keyID._value == g_keyId[1 + DEPK(i)] && out.dependencies[i].orderOnly == oo[i] && out.dependencies[i].singleUse == su[i], "dependencies are read back in order with both flags");
   // second lookup in the same process takes the fast path and must agree
   Result out2; out2.dependencies.keys.reserve(3); out2.dependencies.flags.reserve(3); out2.value.reserve(4);
   bool found2 = r->lookupRuleResult(k0, rule.key, &out2, &err);
   VF_ASSERT(found2 && out2.builtAt == in.builtAt && out2.computedAt == in.computedAt && out2.signature.value == in.signature.value && out2.dependencies.size() == VF_ND && out2.value.size() == VF_NV, "the fast path returns the same record");
-  for (int i = 0; i < VF_ND; i++) VF_ASSERT(out2.dependencies[i].keyID._value == g_keyId[1 + i] && out2.dependencies[i].orderOnly == oo[i] && out2.dependencies[i].singleUse == su[i], "fast path: dependencies in order with both flags");
+  for (int i = 0; i < VF_ND; i++) VF_ASSERT(out2.dependencies[i].keyID._value == g_keyId[1 + DEPK(i)] && out2.dependencies[i].orderOnly == oo[i] && out2.dependencies[i].singleUse == su[i], "fast path: dependencies in order with both flags");
   vf_observe(out.value.size());
 #elif VF_CASE == 1
   // R3 version gate
